@@ -26,6 +26,11 @@ class Module:
     def __init__(self, name):
         self.name = name
         self.path = os.path.join(REPO, PKG, name.replace('.', '/') + '.py')
+        if name.startswith('lemmas_'):
+            # proof scripts: straight-line compositions of calls to functions
+            # under contract, verified modularly (never part of /repo)
+            self.path = os.path.join(os.path.dirname(os.path.dirname(os.path.abspath(__file__))),
+                                     'contracts', name + '.py')
         with open(self.path, 'rb') as fh:
             data = fh.read()
         self.sha256 = hashlib.sha256(data).hexdigest()
@@ -52,6 +57,8 @@ class Module:
                 return False
             if src in ("sys.platform != 'win32'", 'sys.platform != "win32"'):
                 return True
+            if src in ("platform.system() == 'Windows'", "sys.platform == 'darwin'"):
+                return False
             if src.startswith('sys.version_info >= ') or \
                     src.startswith('sys.version_info[0] == 3') or \
                     src.startswith('sys.version_info[0] >= 3'):
